@@ -6,6 +6,7 @@ import os
 import random
 import sys
 import time
+import warnings
 from fractions import Fraction
 
 import numpy
@@ -438,6 +439,73 @@ def replay_modes(chk, mg, rng, method, what):
     chk.harness_error("C11 interpolate_modes: '%s' did not reproduce" % what)
 
 
+def default_order_twin(chk, mg, rng):
+    """Configuration twin: interpolate_modes(..., method) without an order (its signature says order=None) must behave like the call with the
+    default order of that method's own function; and every value of `cij modes -n` the option parser admits must be drawable."""
+    import cij.io.traditional.models as md
+    per_method = {"spline": mg.interpolate_mode_spline, "lagrange": mg.interpolate_mode_lagrange, "krogh": mg.interpolate_mode_krogh,
+                  "pchip": mg.interpolate_mode_ppoly, "akima": mg.interpolate_mode_ppoly, "lsq_poly": mg.interpolate_mode_lsq_poly}
+    nvol, nq, np_ = 12, 2, 6
+    vols = numpy.linspace(420, 300, nvol)
+    gam = numpy.array([[0.8 + 0.3 * k + 0.7 * j for k in range(np_)] for j in range(nq)])
+    A = numpy.array([[1e4 * (1 + k + 3 * j) for k in range(np_)] for j in range(nq)])
+    volumes = [md.VolumeData(0.0, vols[i], 0.0, [md.QPointData((0, 0, j), list(A[j] * vols[i] ** (-gam[j]))) for j in range(nq)]) for i in range(nvol)]
+    qin = md.QHAInputData(nvol, nq, np_, 1, 2, [((0, 0, j), 1.0) for j in range(nq)], volumes)
+    v = numpy.linspace(410, 310, 5)
+    bad = []
+    n = 0
+    for method, f in per_method.items():
+        default = inspect.signature(f).parameters["order"].default
+        try:
+            with warnings.catch_warnings():
+                warnings.simplefilter("ignore")
+                want = mg.interpolate_modes(qin, v, method=method, order=default)
+        except Exception:
+            continue
+        n += 1
+        try:
+            with warnings.catch_warnings():
+                warnings.simplefilter("ignore")
+                got = mg.interpolate_modes(qin, v, method=method)
+            if any(not numpy.array_equal(a, b, equal_nan=True) for a, b in zip(got, want)):
+                bad.append("%s: differs from order=%r" % (method, default))
+        except Exception as e:
+            bad.append("%s: %s: %s" % (method, type(e).__name__, str(e)[:60]))
+    if bad:
+        chk.violation("interpolate_modes:default-order", "interpolate_modes(qha_input, v_array, method) without an order (the signature's default) does not run like "
+                      "the method's own default order: %s" % "; ".join(bad[:3]), {})
+    elif n < 4:
+        chk.harness_error("default-order twin: only %d methods ran" % n)
+    else:
+        chk.side_check("default-order twin: %d methods run without an explicit order like with their own default" % n, True)
+    # the -n option of `cij modes`
+    import click
+    import cij.cli.modes as cm
+    import cij.plot.modes as pm
+    opt = next((o for o in cm.main.params if "-n" in o.opts), None)
+    rngopt = getattr(opt, "type", None)
+    if isinstance(rngopt, click.IntRange):
+        calc = PC.Obj()
+        calc.v_array = numpy.linspace(410, 310, 5)
+        calc.freq_array = numpy.ones((5, 2, 6))
+        calc.mode_gamma = [numpy.ones((5, 2, 6)) * 2, numpy.ones((5, 2, 6)) * 3, numpy.ones((5, 2, 6)) * 9]
+        calc.qha_input = qin
+        calc.np, calc.nq, calc.nv = np_, nq, nvol
+
+        class Ax:
+            def __getattr__(self, name):
+                return lambda *a, **k: None
+        for nval in range(rngopt.min, rngopt.max + 1):
+            try:
+                pm.ModePlotter(calc).plot_modes(Ax(), nval, 1)
+            except Exception as e:
+                chk.violation("plot_modes:admitted-n", "`cij modes -n %d` is admitted by the option parser (IntRange(%s, %s)) but plot_modes fails: %s: %s"
+                              % (nval, rngopt.min, rngopt.max, type(e).__name__, str(e)[:80]), dict(n=nval))
+                break
+        else:
+            chk.side_check("every -n value the `cij modes` parser admits (%s..%s) is drawable" % (rngopt.min, rngopt.max), True)
+
+
 def plot_obligation(chk, rng):
     """plot_modes(ax, n, iq) draws freq, gamma, V dgamma/dV for n = 0, 1, 2."""
     try:
@@ -523,6 +591,7 @@ def main():
     lsq_obligations(chk, mg, tier, rng)
     modes_loop(chk, mg, tier, rng)
     plot_obligation(chk, rng)
+    default_order_twin(chk, mg, rng)
     chk.witness("stubs-reached", "sat" if chk.obligations else "unsat")
     chk.bound(methods=list(METHODS), orders=METHODS if tier != "quick" else {k: v[:2] for k, v in METHODS.items()}, sampled_volumes=7, grid_points=3)
     chk.stub("scipy.interpolate.{UnivariateSpline, lagrange, KroghInterpolator, PchipInterpolator, Akima1DInterpolator, CubicHermiteSpline} -> "
